@@ -273,10 +273,8 @@ def rule_csv_tables(ctx: Ctx) -> RuleResult:
                         other_ok = other_ok or (v[0] == "call" and v[1] == ("builtin", "str"))
                         r.ob(v[0] == "call" and v[1] == ("builtin", "str"), lambda v=v: mk_finding("CS-1", spec, None, cfg, p, "numbers and booleans must be written with str(); written as %s" % show(v), extra="str"))
     # the header line: once, before the first row, when header is True
-    inits = {}
-    for s in site.subscribe_fn.body:
-        if isinstance(s, ast.Assign) and len(s.targets) == 1 and isinstance(s.targets[0], ast.Name):
-            inits[s.targets[0].id] = s.value
+    from .common import subscribe_inits
+    inits = subscribe_inits(site)
     saw_header = saw_plain = False
     for cfg in valuations(ctx.space(spec)):
         for p in ctx.paths(spec, None, cfg, max_iter=1):
